@@ -41,7 +41,7 @@ func MonitorsFor(prop string) func() []Monitor {
 		case "C14":
 			ms = append(ms, &monC14{base: base{tr}})
 		case "C15":
-			ms = append(ms, &monC15{base: base{tr}, openings: map[string][]string{}, firstMsg: map[string][]byte{}})
+			ms = append(ms, &monC15{base: base{tr}, openings: map[string][]string{}, firstMsg: map[string][]byte{}, cancelSent: map[string]time.Duration{}})
 		case "C16":
 			ms = append(ms, &monC16{base: base{tr}})
 		case "C17":
@@ -254,6 +254,14 @@ type monC15 struct {
 	base
 	openings map[string][]string // node/swapid -> opening txids
 	firstMsg map[string][]byte   // node/swapid/type -> payload
+	cancelSent map[string]time.Duration // node/swapid -> when the node first sent cancel for a swap it has a record of
+}
+
+func invoiceKind(inv *Invoice) string {
+	if inv.Type == swap.INVOICE_FEE {
+		return "fee"
+	}
+	return "claim"
 }
 
 func (m *monC15) Name() string { return "C15" }
@@ -282,6 +290,13 @@ func (m *monC15) OnObs(w *World, o *Obs) {
 		if !isReal(w, o.Node) || o.Pay == nil {
 			return
 		}
+		// the node told its peer that this swap is cancelled (its own record of the swap existed
+		// when it did) and pays one of the swap's invoices afterwards - fee or claim invoice
+		if inv := w.LN.Invoices[o.Pay.Hash]; inv != nil && inv.Label != "" {
+			if at, ok := m.cancelSent[fmt.Sprintf("%d/%s", o.Node, inv.Label)]; ok {
+				w.Violate("C15", "pay-after-cancel-sent:"+invoiceKind(inv), "node %d started a payment of the %s invoice of swap %.8s at %v although it had sent cancel for that swap at %v", o.Node, invoiceKind(inv), inv.Label, o.T, at)
+			}
+		}
 		si := m.tr.ByClaimHash(o.Node, o.Pay.Hash)
 		if si == nil {
 			return
@@ -291,8 +306,6 @@ func (m *monC15) OnObs(w *World, o *Obs) {
 		if r != nil && r.Current == "State_SwapCanceled" {
 			w.Violate("C15", "pay-after-cancel-state", "node %d started a claim payment for swap %.8s whose record is already canceled", o.Node, si.ID)
 		}
-		// (A cancel *message* sent for this id is not judged here: it may answer a
-		// duplicated request while the swap itself lives on; see DESIGN §11.)
 		n := 0
 		for _, p := range w.LN.PaymentsFor(o.Node, o.Pay.Hash) {
 			if p.State == "settled" {
@@ -307,6 +320,16 @@ func (m *monC15) OnObs(w *World, o *Obs) {
 			return
 		}
 		t := o.Msg.Type
+		if t == MsgCancel {
+			// counts only when the node has a record of that swap: a cancel that refuses somebody
+			// else's request (busy channel, premium, balance) is not the end of a swap of ours
+			if m.tr.Get(o.Node, o.Msg.SwapID) != nil {
+				if _, ok := m.cancelSent[fmt.Sprintf("%d/%s", o.Node, o.Msg.SwapID)]; !ok {
+					m.cancelSent[fmt.Sprintf("%d/%s", o.Node, o.Msg.SwapID)] = o.T
+				}
+			}
+			return
+		}
 		if t != MsgSwapInRequest && t != MsgSwapOutRequest && t != MsgSwapInAgreement && t != MsgSwapOutAgreement {
 			return
 		}
